@@ -8,7 +8,8 @@ import props.c14 as c14
 ID = 'C19'
 LEVEL = 'proof'
 THEOREMS = [('DebInspector.Thm.C19', ['Props.C19.refines_dict', 'Props.C19.conventional_idem_table', 'Props.C19.depsFields_eq_policy',
-                                      'Props.C19.specialCases_eq', 'Props.C19.normalize_eq_conventional', 'Props.C19.sound'])]
+                                      'Props.C19.specialCases_eq', 'Props.C19.normalize_eq_conventional', 'Props.C19.sound', 'Props.C19.soundT',
+                                      'Props.C19.conventional_idem', 'Props.C19.conventional_lower', 'Props.C19.conventional_upper', 'Props.C19.parseControlItems_ok'])]
 TRUSTED = [
     'Lean 4.33.0 kernel',
     'reading of the property as Props.C19.holdsOn / holdsOnT / holdsOnM (plain insertion-ordered dict keyed by lower-cased names; policy field list; conventional capitalisation)',
@@ -21,14 +22,16 @@ ASSUMPTIONS = ['keys are ASCII strings', 'maintainer: single-spaced atoms-and-do
 RULE = ('histories of <= 12 operations over 3 keys x 4 casings (all histories of <= 3 operations exhaustively) from every construction route; '
         'control paragraphs mixing relationship fields, Installed-Size and others in any ASCII case; maintainer names/addresses inside and outside the grammar. '
         'non-trivial = the history uses two casings of one key')
-TECHNIQUE = ('Lean 4 theorems: refinement of the mapping to a plain dict for an arbitrary lower function; DEPS_FIELDS = policy list and '
+TECHNIQUE = ('Lean 4 theorems: refinement of the mapping to a plain dict for an arbitrary lower function; typed fields of every paragraph with distinct names (soundT); DEPS_FIELDS = policy list and '
              'normalisation tables by decide + executable spec on every observation + correspondence on operation histories')
 LEVEL_TEXT = ('Props.C19.refines_dict: for every construction route, every finite history of set/get/del/in/len/iter/to_dict and every lower function, '
               'the model of Debian822 returns exactly what a plain insertion-ordered dictionary driven by the same history with lower-cased keys returns '
               '(Lean 4, induction over the history). Tie theorems by decide over the regenerated tables: DEPS_FIELDS equals the policy relationship-field '
-              'list, special_cases equals {md5sum, sha1, sha256}, and the model of normalize_control_field_name equals the conventional capitalisation and is '
-              'idempotent on the policy field names. Typed conversion, maintainer split and the text/file routes are decided by the executable '
-              'specification on every implementation observation and by correspondence.')
+              'list, special_cases equals {md5sum, sha1, sha256}, and the model of normalize_control_field_name equals the conventional capitalisation. '
+              'Props.C19.soundT: for every control paragraph whose normalised names are distinct, whenever the model of parse_control_fields returns it returns one entry per field, in order, under the conventional capitalisation of its name - '
+              'idempotent and independent of the case of the input for every name, not only the policy names (conventional_idem, conventional_lower, conventional_upper: by the ASCII case-map table and induction over the hyphen-separated words) - '
+              'holding the parsed relationship for the policy relationship fields, the integer for Installed-Size and the raw string for every other field (parseControlItems_ok). '
+              'The maintainer split (parseaddr is not modelled beyond the grammar) and the text/file routes are decided by the executable specification on every implementation observation and by correspondence.')
 LEVEL_NOTE = ('Trusted: Lean kernel; axioms propext, Classical.choice, Quot.sound only; ASCII restriction of lower/capitalize; parseaddr modelled on the grammar only.')
 
 KEYS = ['depends', 'Depends', 'DEPENDS', 'dePends', 'x-y', 'X-Y', 'X-y', 'md5SUM', 'MD5sum', 'a', 'A']
